@@ -43,11 +43,15 @@ St(k, sz, al, ms) == [kind |-> k, size |-> sz, align |-> al, mems |-> ms]
 Ty == [
   char  |-> Sc(1),
   short |-> Sc(2),
+  ushort |-> Sc(2),                       \* unsigned short = char16_t
   int   |-> Sc(4),
   uint  |-> Sc(4),
   ptr   |-> [kind |-> "ptr", size |-> 8, align |-> 8],
   AI3   |-> Arr("int", 3, 12, 4),
   AIX   |-> Arr("int", 0, 0, 4),          \* int []
+  AW2   |-> Arr("int", 2, 8, 4),          \* wchar_t [2]: L"pq" fills it exactly, the NUL is dropped
+  MW    |-> Arr("AW2", 2, 16, 4),         \* wchar_t [2][2]
+  AH2   |-> Arr("ushort", 2, 4, 2),       \* char16_t [2]: u"pq" fills it exactly
   AC2   |-> Arr("char", 2, 2, 1),
   AC3   |-> Arr("char", 3, 3, 1),
   AC4   |-> Arr("char", 4, 4, 1),
@@ -73,6 +77,9 @@ Ty == [
   SA    |-> St("struct", 20, 4, <<M("ps", "AP2", 0), M("k", "char", 16)>>),
   \* struct SC { char s[6]; short z; }
   SC    |-> St("struct", 8, 2, <<M("s", "AC6", 0), M("z", "short", 6)>>),
+  \* struct SW2 { int w[2]; char k; }  struct SH { unsigned short h[2]; short z; }  (exactly filled wide arrays before a member)
+  SW2   |-> St("struct", 12, 4, <<M("w", "AW2", 0), M("k", "char", 8)>>),
+  SH    |-> St("struct", 6, 2, <<M("h", "AH2", 0), M("z", "short", 4)>>),
   \* struct SW { int w[3]; char k; }   (w doubles as a wchar_t array)
   SW    |-> St("struct", 16, 4, <<M("w", "AI3", 0), M("k", "char", 12)>>),
   AS0   |-> St("struct", 8, 4, <<M("q", "int", 0), M("r", "char", 4)>>),
@@ -85,8 +92,9 @@ Kind(t) == Ty[t].kind
 IsScalar(t) == Kind(t) \in {"int", "ptr"}
 IsSU(t) == Kind(t) \in {"struct", "union"}
 IsIncT(t) == Kind(t) = "arr" /\ Ty[t].n = 0
-\* arrays a string literal may initialise: char[] with "..." and int[] (= wchar_t[]) with L"..."
-StrElemW(t) == IF Kind(t) = "arr" /\ Ty[t].base \in {"char", "int"} THEN Ty[Ty[t].base].size ELSE 0
+\* arrays a string literal may initialise: char[] with "...", int[] (= wchar_t[]) with L"...", unsigned short[]
+\* (= char16_t[]) with u"..."
+StrElemW(t) == IF Kind(t) = "arr" /\ Ty[t].base \in {"char", "int", "ushort"} THEN Ty[Ty[t].base].size ELSE 0
 
 \* the two string literals (without the terminating NUL)
 StrData(id) == IF id = 1 THEN <<112, 113>> ELSE <<119, 120, 121, 122>>      \* "pq"  "wxyz"
@@ -862,7 +870,7 @@ StrC(id) == IF id = 1 THEN "\"pq\"" ELSE "\"wxyz\""
 ExprC(w) == CASE w.k = "int" -> ToString(w.v)
               [] w.k = "addr" -> AddrTab[w.v].c
               [] w.k = "saddr" -> StrC(w.v)
-              [] w.k = "bytes" -> (IF StrElemW(w.lt) = 4 THEN "L" ELSE "") \o StrC(toks[w.tp].n)
+              [] w.k = "bytes" -> (IF StrElemW(w.lt) = 4 THEN "L" ELSE IF StrElemW(w.lt) = 2 THEN "u" ELSE "") \o StrC(toks[w.tp].n)
               [] w.k = "agg" -> "pv"
               [] OTHER -> ""
 \* relocation as the harness sees it: [offset, symbol, addend, content of an unnamed target]
